@@ -745,6 +745,15 @@ impl<'a> Monitor<'a>
                     if x.alive { x.alive = false; x.killed = true; x.must_be_dead = true; }
                 }
             }
+            Op::StripSys(a) =>
+            {
+                // the system is gone for every purpose, its (empty) entity stays unless the system was executing (the
+                // runner then despawns the entity when it cannot put the callback back)
+                if let Some(x) = self.actors.get_mut(a as usize)
+                {
+                    if x.alive { x.alive = false; x.killed = true; }
+                }
+            }
             Op::Register(a, b, mode) => { self.register(a, &b, mode, issued.token); }
             Op::RegisterNew(variant, b, mode) =>
             {
